@@ -861,6 +861,12 @@ class Rewriter:
                         "%s: anchor %r found %d times" % (self.label, lit, len(idxs))
                     )
                 pos = ob + idxs[0]
+            elif occ < 0:
+                # counted from the end (-1: the last occurrence), for anchors whose earlier occurrences a
+                # change may remove
+                if -occ > len(idxs):
+                    raise ExtractError("%s: anchor %r occurrence %d missing" % (self.label, lit, occ))
+                pos = ob + idxs[occ]
             else:
                 if occ > len(idxs):
                     raise ExtractError("%s: anchor %r occurrence %d missing" % (self.label, lit, occ))
